@@ -704,7 +704,7 @@ pub fn check_repeat(case: &RepeatCase, w: usize) -> CheckResult {
         return inconclusive("run timed out".into());
     }
     let Some(doc) = out.json() else {
-        if out.stderr_str().contains("Lock acquisition failed") {
+        if (out.stderr_str().contains("Lock acquisition failed") || out.stderr_str().contains("Text file busy")) {
             return inconclusive(format!("run produced no JSON: {}", out.brief()));
         }
         return viol_obs("c06.fatal", "a run that plans one command twice ended fatally although every executable exits 0".into(), out.brief());
